@@ -75,6 +75,15 @@ func randBundle(r *Rng, ver bver.Version, n int) *bundle.Bundle {
 			Request:  bundle.Request{URL: mustURL(u), Header: http.Header{}},
 			Response: bundle.Response{Status: []int{200, 200, 200, 404, 301, 100, 999, 500}[r.Intn(8)], Header: randRespHeader(r), Body: r.Bytes(blen)}})
 	}
+	if n >= 2 && r.Chance(1, 5) { // byte-identical responses under different URLs
+		src := b.Exchanges[r.Intn(n)]
+		dst := b.Exchanges[r.Intn(n)]
+		if src != dst {
+			dst.Response.Status = src.Response.Status
+			dst.Response.Header = src.Response.Header.Clone()
+			dst.Response.Body = append([]byte{}, src.Response.Body...)
+		}
+	}
 	if ver == bver.VersionB1 || r.Chance(1, 2) {
 		if n > 0 && r.Chance(3, 4) {
 			b.PrimaryURL = b.Exchanges[r.Intn(n)].Request.URL
